@@ -287,17 +287,18 @@ fn get_match_statically_known(
             asm::RuleParameterType::Unsigned(_) |
             asm::RuleParameterType::Signed(_) =>
             {
+                // A parameter is always registered, known or not: left
+                // out, its name would fall through to a global symbol
+                // that happens to be called the same
                 if let InstructionArgumentKind::Expr(ref arg_expr) = arg.kind
                 {
-                    if arg_expr.is_value_statically_known(&arg_provider)
-                    {
-                        provider.locals.insert(
-                            param.name.clone(),
-                            expr::StaticallyKnownLocal {
-                                value_known: true,
-                                ..expr::StaticallyKnownLocal::new()
-                            });
-                    }
+                    provider.locals.insert(
+                        param.name.clone(),
+                        expr::StaticallyKnownLocal {
+                            value_known: arg_expr
+                                .is_value_statically_known(&arg_provider),
+                            ..expr::StaticallyKnownLocal::new()
+                        });
                 }
             }
 
@@ -305,19 +306,16 @@ fn get_match_statically_known(
             {
                 if let asm::InstructionArgumentKind::Nested(ref nested_match) = arg.kind
                 {
-                    if get_match_statically_known(
-                        decls,
-                        defs,
-                        symbol_ctx,
-                        nested_match)
-                    {
-                        provider.locals.insert(
-                            param.name.clone(),
-                            expr::StaticallyKnownLocal {
-                                value_known: true,
-                                ..expr::StaticallyKnownLocal::new()
-                            });
-                    }
+                    provider.locals.insert(
+                        param.name.clone(),
+                        expr::StaticallyKnownLocal {
+                            value_known: get_match_statically_known(
+                                decls,
+                                defs,
+                                symbol_ctx,
+                                nested_match),
+                            ..expr::StaticallyKnownLocal::new()
+                        });
                 }
             }
         }
